@@ -2,6 +2,7 @@
 #include <cocls/future.h>
 #include <cocls/async.h>
 #include <cocls/with_allocator.h>
+#include <type_traits>
 using namespace cocls;
 
 // ---- instrumentation visible to the harness (plain globals; extern "C" names)
@@ -21,6 +22,13 @@ static void observe(future<int> &f) {
     catch (int e) { g_seen_exc = e; }
 }
 
+// await_suspend of async<T>::co_awaiter behind a template, so that a rewrite changing its return type still compiles (discarded branches)
+template<typename C> static void *caw_suspend_tmpl(C *c, std::coroutine_handle<> h) {
+    using R = decltype(c->await_suspend(h));
+    if constexpr (std::is_void_v<R>) { c->await_suspend(h); return nullptr; }
+    else if constexpr (std::is_same_v<R, bool>) { return c->await_suspend(h) ? (void *)c : nullptr; }
+    else { return c->await_suspend(h).address(); }
+}
 extern "C" {
 // ---- drive scenarios (each returns 1 when it ran to the end)
 int drive_start_value(int x) { future<int> f = co_value(x, Guard()).start(); observe(f); return 1; }
@@ -43,7 +51,7 @@ void drv_async_dtor(async<int> *a) { a->~async<int>(); }
 void drv_async_move(async<int> *out, async<int> *src) { new(out) async<int>(std::move(*src)); }
 void drv_co_await(async<int>::co_awaiter *out, async<int> *a) { new(out) async<int>::co_awaiter(a->operator co_await()); }
 bool drv_caw_ready(async<int>::co_awaiter *c) { return c->await_ready(); }
-void *drv_caw_suspend(async<int>::co_awaiter *c, std::coroutine_handle<> h) { return c->await_suspend(h).address(); }
+void *drv_caw_suspend(async<int>::co_awaiter *c, std::coroutine_handle<> h) { return caw_suspend_tmpl(c, h); }
 int drv_caw_resume(async<int>::co_awaiter *c) { return c->await_resume(); }
 void drv_prom_resolve(async_promise<int> *p, int v) { p->return_value(v); }
 void drv_prom_unhandled(async_promise<int> *p) { try { throw 1; } catch (...) { p->unhandled_exception(); } }
@@ -83,4 +91,11 @@ static with_allocator<AccStorage, async<int> > co_alloc_value(AccStorage &, int 
 extern "C" {
 int drive_alloc_value(int x) { AccStorage st; future<int> f = co_alloc_value(st, x, Guard()).start(); observe(f); return 1; }
 int drive_alloc_never_started(int x) { AccStorage st; { async<int> a = co_alloc_value(st, x, Guard()); } return 1; }
+}
+
+// ---- wrappers with a FIXED signature around members whose return type a rewrite may change (the contract is then enforced on the wrapper)
+#include <type_traits>
+extern "C" {
+void *drv_caw_suspend_any(async<int>::co_awaiter *c, void *haddr) { return caw_suspend_tmpl(c, std::coroutine_handle<>::from_address(haddr)); }
+void drv_prom_unhandled_cur(async_promise<int> *p) { p->unhandled_exception(); }
 }
